@@ -121,6 +121,7 @@ fn main() {
             std::process::exit(code);
         }
         "oracle-server" => props::oracle_server(),
+        "coldstart" => props::coldstart::child_main(),
         "corpus" => {
             let n = fuzzrun::write_corpus(&args[2], Path::new(&args[3]), seed_from_env());
             println!("{} files", n);
